@@ -184,7 +184,88 @@ def check_doe(ctx: Ctx) -> None:
     ctx.ob("13.1-doe-slot", cname(DOE, "BaseDOELibrary", "_run"), ok, "with a database, the storing callback must be among the callbacks of the parallel execution over self.samples", node=(ap or [r])[0])
 
 
+FDF = "utils/derivatives/finite_differences.py"
+
+
+def check_optimal_step_slots(ctx: Ctx) -> None:
+    """13.6: in the parallel branch of FirstOrderFD.compute_optimal_step every output is read from the slot of
+    the point it was computed at (the task list is [x] + forward points + backward points)."""
+    import sympy as sp
+
+    f = ctx.index.method(FDF, "FirstOrderFD", "compute_optimal_step")
+    con = cname(FDF, "FirstOrderFD", "compute_optimal_step")
+    ex = [st for st in stmts_of(f) if isinstance(st, ast.Assign) and isinstance(st.value, ast.Call) and last_attr(st.value) == "execute" and "parallel" in norm_stmt(st.value.func)]
+    if len(ex) != 1 or not ex[0].value.args or not isinstance(ex[0].value.args[0], ast.Name):
+        ctx.ob("13.7-slots", con, False, "the parallel evaluation of the perturbed points was not recognised (outputs = parallel_execution.execute(<list of points>))", node=f, stmt="parallel evaluation recognised")
+        return
+    out_var, pts = dotted(ex[0].targets[0]), ex[0].value.args[0].id
+    # segments of the task list: (offset, size, source array or None for the base point, index variable)
+    segs = []
+    offset = sp.Integer(0)
+
+    def add(e):
+        nonlocal offset
+        if isinstance(e, ast.BinOp) and isinstance(e.op, ast.Add):
+            add(e.left)
+            add(e.right)
+        elif isinstance(e, ast.List):
+            for x in e.elts:
+                segs.append((offset, sp.Integer(1), norm_stmt(x), None))
+                offset += 1
+        elif isinstance(e, ast.ListComp) and len(e.generators) == 1 and isinstance(e.generators[0].iter, ast.Call) and dotted(e.generators[0].iter.func) == "range" and len(e.generators[0].iter.args) == 1:
+            n = sp.Symbol(norm_stmt(e.generators[0].iter.args[0]), integer=True, positive=True)
+            src = e.elt.value if isinstance(e.elt, ast.Subscript) else e.elt
+            segs.append((offset, n, norm_stmt(src), dotted(e.generators[0].target)))
+            offset += n
+        else:
+            raise AnalysisError(f"compute_optimal_step: task list segment `{norm_stmt(e, 50)}` not understood")
+
+    for st in stmts_of(f):
+        if isinstance(st, ast.Assign) and dotted(st.targets[0]) == pts:
+            add(st.value)
+        elif isinstance(st, ast.AugAssign) and dotted(st.target) == pts and isinstance(st.op, ast.Add):
+            add(st.value)
+    reads = [n for n in walk_body(f) if isinstance(n, ast.Subscript) and dotted(n.value) == out_var]
+    seen = {}
+    for rd in reads:
+        st = rules.enclosing_stmt(f, rd)
+        if not (isinstance(st, ast.Assign) and isinstance(st.targets[0], ast.Name)):
+            continue
+        loop = next((lp for lp in stmts_of(f) if isinstance(lp, ast.For) and st in list(ast.walk(lp)) and isinstance(lp.iter, ast.Call) and dotted(lp.iter.func) == "range"), None)
+        env = {}
+        if loop is not None:
+            env[dotted(loop.target)] = sp.Symbol("i", integer=True, nonnegative=True)
+        try:
+            idx_t = sp.sympify(norm_stmt(rd.slice), locals={**{k: v for k, v in env.items()}, **{str(s_): s_ for seg in segs for s_ in seg[1].free_symbols}})
+        except Exception:  # noqa: BLE001
+            idx_t = None
+        src = None
+        if idx_t is not None:
+            for off, size, source, var in segs:
+                i = sp.Symbol("i", integer=True, nonnegative=True)
+                if var is None and sp.simplify(idx_t - off) == 0:
+                    src = source
+                elif var is not None and sp.simplify(idx_t - (off + i)) == 0:
+                    src = source
+        seen[st.targets[0].id] = (src, st)
+    # the sequential branch says which array each value comes from
+    seq = {}
+    for st in stmts_of(f):
+        if isinstance(st, ast.Assign) and isinstance(st.targets[0], ast.Name) and isinstance(st.value, ast.Call) and last_attr(st.value) == "f_pointer" and st.value.args:
+            a = st.value.args[0]
+            seq[st.targets[0].id] = norm_stmt(a.value if isinstance(a, ast.Subscript) else a)
+    n = 0
+    for name, want in sorted(seq.items()):
+        got = seen.get(name)
+        if got is None:
+            continue
+        n += 1
+        ctx.ob("13.7-slots", con, got[0] == want, f"in the parallel branch `{name}` is read from the slot of `{got[0]}`; the sequential branch computes it at `{want}`: parallel and sequential optimal steps (and the gradients that use them) differ", node=got[1], stmt=f"parallel {name} read from the slot of {want}")
+    ctx.ob("13.7-slots", con, n >= 3, "the three values (base, forward, backward) of the parallel branch were not all recognised", node=f, stmt="base, forward and backward slots recognised")
+
+
 def run(ctx: Ctx) -> None:
+    check_optimal_step_slots(ctx)
     check_worker(ctx)
     check_dispatcher(ctx)
     lock_discipline(ctx, "13.4-lock")
@@ -206,6 +287,9 @@ def run(ctx: Ctx) -> None:
 
 # ---------------------------------------------------------------------------
 WITNESSES = [
+    {"name": "cache-jacobian-under-the-hash-lock", "file": "caches/base_full_cache.py", "old": "    @synchronized\n    def cache_jacobian(", "new": "    @synchronized_hashes\n    def cache_jacobian(", "expect": "13.4"},
+    {"name": "optimal-step-backward-slot-off-by-one", "file": FDF, "old": "                f_m = outputs[n_dim + i + 1]", "new": "                f_m = outputs[n_dim + i]", "expect": "13.7"},
+    {"name": "optimal-step-forward-backward-swapped", "file": FDF, "old": "            all_x = [x_vect] + [x_p_arr[:, i] for i in range(n_dim)]\n            all_x += [x_m_arr[:, i] for i in range(n_dim)]", "new": "            all_x = [x_vect] + [x_m_arr[:, i] for i in range(n_dim)]\n            all_x += [x_p_arr[:, i] for i in range(n_dim)]", "expect": "13.7"},
     {"name": "answer-carries-a-counter", "file": CP, "old": "        queue_out.put((task_index, output))\n        queue_in.task_done()", "new": "        queue_out.put((queue_out.qsize(), output))\n        queue_in.task_done()", "expect": "13.1"},
     {"name": "submit-next-input", "file": CP, "old": "            queue_in.put((task_index, inputs[task_index]))", "new": "            queue_in.put((task_index, inputs[task_index - 1]))", "expect": "13.1"},
     {"name": "no-answer-on-exception", "file": CP, "old": "            traceback.print_exc()\n            queue_out.put((task_index, err))\n            queue_in.task_done()\n            continue", "new": "            traceback.print_exc()\n            queue_in.task_done()\n            continue", "expect": "13.2"},
@@ -225,5 +309,6 @@ WITNESSES = [
     {"name": "output-unbound-for-no-task", "file": CP, "old": "        stop = False\n        output = None\n", "new": "        stop = False\n", "expect": "13.6"},
 ]
 TWINS = [
+    {"name": "optimal-step-slot-index-commuted", "file": FDF, "old": "                f_m = outputs[n_dim + i + 1]", "new": "                f_m = outputs[1 + i + n_dim]"},
     {"name": "rename-index", "file": CP, "old": "            index, output = queue_out.get()", "new": "            index, output = queue_out.get(block=True)"},
 ]
